@@ -4,6 +4,7 @@ package c04
 import (
 	"bytes"
 	"fmt"
+	"io"
 	"os"
 	"strings"
 	"time"
@@ -241,7 +242,19 @@ func ExecWriter(c WriterCase) hx.Verdict {
 		}
 		for i, ch := range c.Chunks {
 			buf := append([]byte{}, ch...)
-			n, err := w.Write(buf)
+			// Write / io.Copy from a plain reader (ReadFrom of the writer, if any) / io.WriteString
+			var n int
+			var err error
+			switch (len(ch) + i) % 3 {
+			case 0:
+				n, err = w.Write(buf)
+			case 1:
+				var n64 int64
+				n64, err = io.Copy(w, struct{ io.Reader }{bytes.NewReader(buf)})
+				n = int(n64)
+			default:
+				n, err = io.WriteString(w, string(buf))
+			}
 			for j := range buf {
 				buf[j] ^= 0x5a // the caller reuses its buffer
 			}
@@ -321,6 +334,17 @@ func GenCopy(rt *rapid.T) CopyCase {
 	img = func(s, d *fsmodel.Node) {
 		for _, k := range s.Names() {
 			n := s.Kids[k]
+			if hx.Chance(rt, 6, "kindconflict") {
+				// kind conflict: the destination holds a file where the source has a directory, or an
+				// (empty) directory where the source has a file. The copy cannot succeed silently:
+				// it reports an error or it really replaces the node.
+				if n.Dir {
+					d.Kids[k] = fsmodel.NewFile([]byte("a-file-where-the-source-has-a-directory"))
+				} else {
+					d.Kids[k] = fsmodel.NewDir()
+				}
+				continue
+			}
 			if n.Dir {
 				if hx.Chance(rt, 70, "keepd") {
 					nd := fsmodel.NewDir()
@@ -430,6 +454,29 @@ func runHelper(c CopyCase, s, d fsmodel.FS) outcome {
 // expected computes the destination tree after a successful copy and whether the stated
 // preconditions hold (so that the fault-free copy must succeed).
 func expected(c CopyCase) (want *fsmodel.Node, pre bool) {
+	want, pre, _ = expected3(c)
+	return want, pre
+}
+
+// kindConflict: copying the source subtree sn to dest (segments) meets a node of the other
+// kind in the destination (a file where a directory is needed or the reverse).
+func kindConflict(sn *fsmodel.Node, dst *fsmodel.Node, dest []string) bool {
+	for i := 1; i <= len(dest); i++ {
+		if n := dst.Lookup(dest[:i]); n != nil && !n.Dir {
+			return true
+		}
+	}
+	for _, t := range fsmodel.Flatten(sn) {
+		segs, _ := fsmodel.Resolve(t.Path)
+		p := append(append([]string{}, dest...), segs...)
+		if n := dst.Lookup(p); n != nil && n.Dir != t.Dir {
+			return true
+		}
+	}
+	return false
+}
+
+func expected3(c CopyCase) (want *fsmodel.Node, pre bool, conflict bool) {
 	src, dst := fsmodel.Build(c.SrcTree), fsmodel.Build(c.DstTree)
 	want = dst.Clone()
 	m := &fsmodel.Model{Root: want, Views: [][]string{{}}}
@@ -447,7 +494,7 @@ func expected(c CopyCase) (want *fsmodel.Node, pre bool) {
 		s, _ := fsmodel.Resolve(c.SrcPath)
 		sn := src.Lookup(s)
 		if sn == nil || sn.Dir {
-			return want, false
+			return want, false, false
 		}
 		if !parentExists(segs) && !createsParents(c.Dst) {
 			pre = false
@@ -455,12 +502,20 @@ func expected(c CopyCase) (want *fsmodel.Node, pre bool) {
 		if n := dst.Lookup(segs); n != nil && n.Dir {
 			pre = false
 		}
+		for i := 1; i < len(segs); i++ {
+			if n := dst.Lookup(segs[:i]); n != nil && !n.Dir {
+				return want, false, true // a file where a parent directory is needed
+			}
+		}
 		m.Apply(fsmodel.Op{Op: "WriteFile", Path: c.DestPath, Data: sn.Data})
 	default:
 		s, _ := fsmodel.Resolve(c.SrcPath)
 		sn := src.Lookup(s)
 		if sn == nil || !sn.Dir {
-			return want, false
+			return want, false, false
+		}
+		if kindConflict(sn, dst, segs) {
+			return want, false, true
 		}
 		if c.Helper == "CopierDir" {
 			m.Apply(fsmodel.Op{Op: "MkdirAll", Path: c.DestPath})
@@ -477,7 +532,7 @@ func expected(c CopyCase) (want *fsmodel.Node, pre bool) {
 			}
 		}
 	}
-	return want, pre
+	return want, pre, conflict
 }
 
 // ExecCopy runs one copy case (with or without an injected fault).
@@ -510,7 +565,7 @@ func execCopy(c CopyCase) (hx.Verdict, int) {
 		if err := fsmodel.Populate(db.fs, c.DstTree); err != nil {
 			return hx.Fail("setup", "populate destination [%s]: %v", c.Dst, err)
 		}
-		want, pre := expected(c)
+		want, pre, conflict := expected3(c)
 		ctl := fsmodel.NewFaultCtl(c.FailAt)
 		var s, d fsmodel.FS = fsmodel.NewFaultFS(sb.fs, ctl, "src"), fsmodel.NewFaultFS(db.fs, ctl, "dst")
 		o := runHelper(c, s, d)
@@ -537,6 +592,36 @@ func execCopy(c CopyCase) (hx.Verdict, int) {
 					c.Helper, c.Src, c.Dst, c.SrcPath, c.DestPath, o.err)
 			}
 			v.Label("reported-error")
+			if conflict {
+				v.Label("kind-conflict-reported")
+			}
+			return v
+		}
+		if conflict {
+			// nil although a node of the other kind was in the way: then the copy must really be there
+			v.Label("kind-conflict-not-reported")
+			got, prob := fsmodel.Walk(db.fs, false)
+			if prob != "" {
+				return hx.Fail("dest-tree", "%s %s->%s returned nil but the destination cannot be walked: %s", c.Helper, c.Src, c.Dst, prob)
+			}
+			ss, _ := fsmodel.Resolve(c.SrcPath)
+			sn := fsmodel.Build(c.SrcTree).Lookup(ss)
+			ds, _ := fsmodel.Resolve(c.DestPath)
+			if sn != nil && !sn.Dir {
+				if n := got.Lookup(ds); n == nil || n.Dir || !bytes.Equal(n.Data, sn.Data) {
+					return hx.Fail("copy-incomplete", "%s %s->%s (src %q dest %q) returned nil although a file was in the way of a parent directory, and the destination file is missing or has other bytes",
+						c.Helper, c.Src, c.Dst, c.SrcPath, c.DestPath)
+				}
+				return v
+			}
+			for _, t := range fsmodel.Flatten(sn) {
+				segs, _ := fsmodel.Resolve(t.Path)
+				n := got.Lookup(append(append([]string{}, ds...), segs...))
+				if n == nil || n.Dir != t.Dir || (!t.Dir && !bytes.Equal(n.Data, t.Data)) {
+					return hx.Fail("copy-incomplete", "%s %s->%s (src %q dest %q) returned nil although a node of the other kind was in the way, and the destination is not a copy: %q is missing, of the wrong kind or has other bytes",
+						c.Helper, c.Src, c.Dst, c.SrcPath, c.DestPath, t.Path)
+				}
+			}
 			return v
 		}
 		if !pre {
